@@ -25,6 +25,7 @@ type Engine struct {
 	Fset    *token.FileSet
 
 	Contracts map[string]*Contract // by function key
+	Defaults  []*Contract
 	Preds     map[string]*PredDef
 	SpecFns   map[string]*SpecFn
 	Axioms    []string
@@ -307,6 +308,8 @@ func (e *Engine) computeModSets() {
 					if c.IsInvoke() {
 						if im := intrinsicInvokeMod(c); im != nil {
 							m.add(im)
+						} else if tg, ok := e.invokeTargets(c); ok {
+							callees[fn] = append(callees[fn], tg...)
 						} else {
 							m.All = true
 						}
@@ -337,13 +340,15 @@ func (e *Engine) computeModSets() {
 	}
 	for _, fn := range e.allFns {
 		e.modsets[fn] = &ModSet{Arrs: map[string]bool{}}
+		if im := intrinsicFuncMod(fn); im != nil {
+			// trusted write set (assumed contract): the body, if any, is not consulted
+			e.modsets[fn].add(im)
+			callees[fn] = nil
+			continue
+		}
 		e.modsets[fn].add(direct[fn])
 		if fn.Blocks == nil {
-			if im := intrinsicFuncMod(fn); im != nil {
-				e.modsets[fn].add(im)
-			} else {
-				e.modsets[fn].All = true
-			}
+			e.modsets[fn].All = true
 		}
 	}
 	for changed := true; changed; {
@@ -364,6 +369,30 @@ func (e *Engine) computeModSets() {
 			}
 		}
 	}
+}
+
+// invokeTargets: class-hierarchy resolution of an interface method call on an interface type declared in the repo
+// (closed world over the loaded program: every named type implementing it).
+func (e *Engine) invokeTargets(c *ssa.CallCommon) ([]*ssa.Function, bool) {
+	it, ok := underlying(c.Value.Type()).(*types.Interface)
+	if !ok {
+		return nil, false
+	}
+	tk := typeKey(c.Value.Type())
+	if !strings.HasPrefix(tk, modPath) && !strings.HasPrefix(tk, "interface{") {
+		return nil, false
+	}
+	var out []*ssa.Function
+	for _, t := range e.implementers(it, tk) {
+		sel := e.Prog.MethodSets.MethodSet(t).Lookup(c.Method.Pkg(), c.Method.Name())
+		if sel == nil {
+			continue
+		}
+		if f := e.Prog.MethodValue(sel); f != nil {
+			out = append(out, f)
+		}
+	}
+	return out, true
 }
 
 // placeArrays: the array families a store of type t through address value addr touches.
